@@ -36,6 +36,14 @@ CHECKS = {
                      'against an independent eligibility and load computation',
                 note='pending load is bounded from below for requests and from above for the no-resource clause so that the '
                      'oracle cannot raise a false alarm; sign rules (#, @) belong to C18'),
+    'C05': dict(engine='E1-cluster', category='model_checking', technique=E1 + ' + fair-closure bounded liveness',
+                ref='DESIGN.md section 4, C05',
+                text='duplicates created by direct Supervisor starts (managed / unmanaged, 1-2 conflicts, 2-3 copies) are explored '
+                     'for the six strategies and the running failure strategies of the program; every stop request is compared '
+                     'with the reference computed from the true start rounds, the Master must enter CONCILIATION by its next '
+                     'evaluation, and the closure must end conflict-free in OPERATION (USER: CONCILIATION while a duplicate exists) '
+                     'with the placement the strategy prescribes',
+                note='copies at least two tick rounds apart; final placement not judged when an election aborted the jobs'),
     'C07': dict(engine='E1-cluster', category='model_checking', technique=E1, ref='DESIGN.md section 4, C07',
                 text='every schedule of ticks, deliveries, crashes, restarts (also quicker than detection), isolations, '
                      'rejoins and directed stalls within the bounds is executed on the real cores; a monitor per (observer, '
